@@ -9,6 +9,8 @@ mod stubs;
 #[cfg(kani)]
 mod c01;
 #[cfg(kani)]
+mod c01p;
+#[cfg(kani)]
 mod c02;
 #[cfg(kani)]
 mod c03;
